@@ -599,12 +599,15 @@ def denoteOperands (P : Prims) (now : Int) (e : TVExpr × TVExpr) (r v : Val) : 
   | _, _ => none
 
 namespace Spec
+/-- a whole, non-negative day count within the range a CEL duration can hold -/
+def daysOf : Val → Option Nat
+  | .atom (.int d) => if d < 0 then none else if d.toNat * 86400 ≤ durMaxSeconds then some d.toNat else none
+  | _ => none
+
 /-- Custodian's `process_value_type`: the operands `(r', v')` of `op(r', v')` for resource value `r`
-and policy value `v` (ages/expirations in whole days, up to the range a CEL duration can hold) -/
+and policy value `v` -/
 def operands (P : Prims) (now : Int) (vt : String) (r v : Val) : Option (Val × Val) :=
-  let days : Option Nat := match v with
-    | .atom (.int d) => if d < 0 then none else if d.toNat * 86400 ≤ durMaxSeconds then some d.toNat else none
-    | _ => none
+  let days : Option Nat := daysOf v
   if vt = "size" then (P.size r).map (·, v)
   else if vt = "unique_size" then (P.uniqueSize r).map (·, v)
   else if vt = "integer" then (P.toInt r).map (·, v)
